@@ -42,15 +42,9 @@ theorem WCtx.nonFlush_reqs (c : WCtx) (r0 : WReq) : ∀ r ∈ (c.nonFlush r0).w.
 theorem WCtx.finishBatch_reqs (c : WCtx) (b : List WReq) (t : Option WReq) (ok : Bool) :
     ∀ r ∈ (c.finishBatch b t ok).w.reqs, r ∈ c.w.queue := by
   rw [WCtx.finishBatch_eq]
-  cases t with
-  | none =>
-    intro r hr
-    have := (c.fb0 b ok).toRecv_reqs r hr
-    simpa using this
-  | some r0 =>
-    intro r hr
-    have := (c.fb0 b ok).nonFlush_reqs r0 r hr
-    simpa using this
+  intro r hr
+  have := (c.fb1 b t ok).nonFlush_reqs _ r hr
+  simpa using this
 
 theorem WCtx.startSync_reqs (c : WCtx) (b : List WReq) (t : Option WReq) :
     ∀ r ∈ (c.startSync b t).w.reqs, r ∈ b ++ (t.toList ++ c.w.queue) := by
